@@ -204,6 +204,17 @@ impl<'a, 'b, 'c> AdtDeserializer<'a, 'b, 'c> {
         }
     }
 
+    /// The error to report when none of the known constructors matched the stored constructor index
+    pub fn invalid_constructor_id(&mut self, type_name: &str) -> Error {
+        match self.read_or_get_constructor_idx() {
+            Ok(constructor_id) => Error::InvalidConstructorId {
+                constructor_id,
+                type_name: type_name.to_string(),
+            },
+            Err(err) => err,
+        }
+    }
+
     fn record_field_index(&mut self, chunk: u8) -> FieldPosition {
         let last_index = &mut self.last_index_per_chunk[chunk as usize];
         let new_index = *last_index + 1;
